@@ -33,8 +33,9 @@ func runC01(p *Prog, r *Report) {
 	ruleDiv(p, r, []string{"harfbuzz", "shaping", "segmenter", "font"}, reviewedDivs(), 8)
 	r.Explain = append(r.Explain, "R-IDX (regression rule over slice accesses in the hand-written code of package harfbuzz): each access key (function / indexed field) of the frozen set sa/ridx_tables.go — the accesses whose bounds P-LIN derived from the function's own dominating tests on the pinned tree, among them the tests added by the fixes for font-supplied lookup, mark-set and feature indices — is still derivable.")
 	ruleIdx(p, r, "R-IDX", []string{"harfbuzz"}, ridxHarfbuzz, 80)
-	r.Explain = append(r.Explain, "R-COVIDX: every array access whose index is a Coverage index (first result of Coverage.Index, followed through conversions, phis and arguments of module functions, one obligation per call site when the array is a parameter) is bounded by a test in its function (P-LIN) or by a sanitizer pair: a function called when the font is loaded compares len(<the indexed field>) with <the coverage field>.Len(), matched by the identity of the two struct fields.")
+	r.Explain = append(r.Explain, "R-COVIDX: every array access whose index is a Coverage index (first result of Coverage.Index, followed through conversions, phis and arguments of module functions, one obligation per call site when the array is a parameter) is bounded by a test in its function (P-LIN) or by a sanitizer pair: a function called when the font is loaded compares len(<the indexed field>) with <the coverage field>.Len(), matched by the identity of the two struct fields; and the loader dispatches the sanitizers on each subtable as it is AFTER extensions have been resolved (R-COVIDX/resolved).")
 	ruleCovIdx(p, r)
+	ruleExtSan(p, r)
 	r.Assumptions = append(r.Assumptions,
 		"termination of loops (as opposed to recursion) is not decided",
 		"cluster monotonicity, rune/glyph count sums and output size proportional to input are NOT decided (runtime arithmetic)",
